@@ -69,6 +69,9 @@ def jobs(tier):
                                   "vnaproperty_vcount", "vnaproperty_vtype", "vnaproperty_vset_subtree", "parse", "descend", "parse_and_descend", "scan", "parser_free"],
                        bound="concrete descriptor history, case %d of harness/c13.c h_descriptor (set foo=bar, then one well-formed or malformed descriptor)" % c,
                        timeout=(200 if tier == "quick" else 1500)))
+    J.append(V.Job("export_keys", H, "h_export_keys", [], defines=["-DH_EXPORT"], unwind=12, shim=False, kind="bounded", canary=True,
+                   functions=["_vnaproperty_yaml_export", "add_mapping_entry", "vnaproperty_quote_key", "vnaproperty_vkeys", "vnaproperty_vget_subtree"],
+                   bound="the tree {\"a.b\": v, plain: w}; libyaml document functions by recording model", timeout=600))
     if tier != "quick":   # every one-byte key (a fully symbolic byte runs the SAT back end out of memory: DESIGN 8.5)
         have = {j.name for j in J}
         for b in range(1, 256):
